@@ -30,7 +30,7 @@ import (
 
 // Config names a deployment shape; see DESIGN.md Appendix C.
 type Config struct {
-	Shape string // l1only | l1l2 | l1l2+batch
+	Shape string // l1only | l1l2 | l1l2+batch | backfill (cluster proxy, L1 = source, L2 = destination)
 	Lock  string // nolock | lock1r | lockNr
 	L1    string // std | chunked | batched | inmem | cluster (l1only: two names of the one L1 fake as nodes)
 	L2    string // - | std | batched
@@ -168,12 +168,26 @@ func build(cfg Config) *Stack {
 	} else {
 		h1 = handlerConst(cfg.L1, s.L1Sock)
 	}
-	h2 := handlerConst(cfg.L2, s.L2Sock)
+	var h2 handlers.HandlerConst
+	if cfg.L2 == "cluster" {
+		addr, err := s.L2.ListenTCP("127.0.0.1:0")
+		if err != nil {
+			panic(err)
+		}
+		_, port, _ := net.SplitHostPort(addr)
+		h2 = memcached.Cluster([]string{addr, "localhost:" + port}, "verif-dest")
+	} else {
+		h2 = handlerConst(cfg.L2, s.L2Sock)
+	}
 
 	var o orcas.OrcaConst
 	switch cfg.Shape {
 	case "l1only":
 		o = orcas.L1Only
+	case "backfill":
+		// the cluster proxy's second mode: gets answered with misses, hits of the
+		// source cluster (h1) copied to the destination cluster (h2)
+		o = orcas.Backfill
 	case "l1l2", "l1l2+batch":
 		o = orcas.L1L2
 	default:
